@@ -255,8 +255,15 @@ class FixedWindowPolicy:
         return self._window_size
 
     def _get_window_start(self, now: Instant) -> Instant:
-        now_s = now.to_seconds()
-        return Instant.from_seconds((now_s // self._window_size) * self._window_size)
+        # Integer nanosecond arithmetic, consistent with ``window_start + window_size``
+        # in time_until_available. Float floor-division puts boundary instants of
+        # non-dyadic windows (e.g. 0.3 s with 0.1 s windows) into the previous window,
+        # so an exhausted window reported a zero wait while still denying.
+        window_ns = Duration.from_seconds(self._window_size).nanoseconds
+        if window_ns <= 0:
+            now_s = now.to_seconds()
+            return Instant.from_seconds((now_s // self._window_size) * self._window_size)
+        return Instant((now.nanoseconds // window_ns) * window_ns)
 
     def _maybe_reset(self, now: Instant) -> None:
         ws = self._get_window_start(now)
